@@ -48,6 +48,13 @@ def gen(rng, tier):
             # costs of both signs and of some size: a penalty bound computed from a sum in which they cancel is too small
             for a in spec["arcs"]:
                 a[3] = fs(Fraction(a[3]) * rng.choice([-3, -2, 2, 3]))
+        if k % 5 == 3 and len(spec["nodes"]) >= 3:
+            # systematic: route costs that cancel in their sum (arcs into every second customer cost -m, into the others +m, into the
+            # depot 0), so that |sum of route costs| is tiny while single routes are strongly negative
+            m = rng.choice([2, 3, 4])
+            cust = [nd["name"] for nd in spec["nodes"][1:]]
+            for a in spec["arcs"]:
+                a[3] = "0" if a[1] not in cust else fs(Fraction(m if cust.index(a[1]) % 2 else -m))
         if rng.random() < 0.3:
             # a depot that opens late: every formulation must start the clock there
             for nd in spec["nodes"][1:]:
